@@ -102,10 +102,57 @@ def spoil(g, kind, m):
     return m & ~(1 << (56 - r.choice([1, 13, 24, 35, 46])))
 
 
+def clean_reg(g, kind):
+    r = g.r
+    if kind == "40":
+        return bds40(r.randint(1, 4095), r.randint(1, 4095), r.randint(1, 4095), 0, 0, r.choice([None, 1, 2, 3]))
+    if kind == "50":
+        gs = r.randint(1, 300)
+        return bds50(r.choice([(0, r.randint(1, 284)), (1, r.randint(228, 511))]), (r.randint(0, 1), r.randint(1, 1023)), gs,
+                     (r.randint(0, 1), r.randint(1, 511)), max(1, min(250, gs + r.randint(-99, 99))))
+    return bds60((r.randint(0, 1), r.randint(1, 1023)), r.randint(1, 1023), r.randint(1, 250),
+                 r.choice([(0, r.randint(1, 187)), (1, r.randint(325, 511))]), r.choice([(0, r.randint(1, 187)), (1, r.randint(325, 511))]))
+
+
+ADV_BIT = {"40": 9, "50": 16, "60": 24}
+STATUS = {"40": [1, 14, 27], "50": [1, 12, 24, 35, 46], "60": [1, 13, 24, 35, 46]}
+RESERVED = {"40": list(range(40, 48)) + [52, 53], "50": [], "60": []}
+
+
 def gen(seed, tier):
     g = Gen(seed * 1000003 + 10)
     r = g.r
     cases = []
+    n = 0
+    # (a) gating matrix: every subset of advertised registers x every register x -R x -U x capability
+    for adv in range(8):
+        bits = [ADV_BIT[k] for i, k in enumerate(("40", "50", "60")) if adv >> i & 1]
+        for kind in ("40", "50", "60"):
+            for rel in (0, 1):
+                for u in (0, 1):
+                    for ca in ((5, 0) if tier != "quick" else (5,)):
+                        icao = r.choice(ICAOS)
+                        o = {}
+                        if rel:
+                            o["R"] = 1
+                        if u:
+                            o["U"] = 1
+                        segs = [seg(0, [g.f_df11(icao, ca=ca)]), seg(0, [g.f_long(r.choice([20, 21]), icao, None, bds17(bits))]),
+                                seg(0, [g.f_long(r.choice([20, 21]), icao, None, clean_reg(g, kind))])]
+                        cases.append(H("C10-m%d" % n, o, segs))
+                        n += 1
+    # (b) every status bit cleared and every reserved bit set, one at a time, gate open and register advertised
+    for kind in ("40", "50", "60"):
+        for b in STATUS[kind] + RESERVED[kind]:
+            for rel in (0, 1):
+                icao = r.choice(ICAOS)
+                base = clean_reg(g, kind)
+                spoiled = base ^ (1 << (56 - b)) if b in STATUS[kind] else base | (1 << (56 - b))
+                o = {"R": 1} if rel else {}
+                segs = [seg(0, [g.f_df11(icao, ca=5)]), seg(0, [g.f_long(20, icao, None, bds17([9, 16, 24]))]),
+                        seg(0, [g.f_long(21, icao, None, clean_reg(g, kind))]), seg(0, [g.f_long(20, icao, None, spoiled)])]
+                cases.append(H("C10-s%d" % n, o, segs))
+                n += 1
     for i in range(500 if tier == "quick" else 6000):
         icao = r.choice(ICAOS)
         o = {}
